@@ -136,7 +136,7 @@ fn probe_all() -> String {
     s.push_str("declare -F | grep -c -E ' (f1|f2|f_heredoc)$'\n");
     s.push_str("alias a1 2>/dev/null || echo a1:noalias\n");
     s.push_str("alias a2 2>/dev/null || echo a2:noalias\n");
-    s.push_str("set -o | grep -E '^(pipefail|nounset|noglob|noclobber) '\n");
+    s.push_str("set -o | grep -E '^(pipefail|nounset|noglob|noclobber|allexport) '\n");
     s.push_str("shopt -p nullglob extglob dotglob nocasematch\n");
     s.push_str("pwd\n");
     s.push_str("dirs -l -p\n");
@@ -300,6 +300,8 @@ fn systematic_histories() -> Vec<History> {
         ),
         ("inherited-empty", "VS_INHERITED=", "true", "VS_INHERITED=again"),
         ("inherited-export-n", "export -n VS_INHERITED", "VS_INHERITED=still-not-exported", "export VS_INHERITED"),
+        // (finding AB: `set -a` must not turn the variables that are restored into exported ones)
+        ("allexport", "VS1=before-allexport; VA1=(x y)", "set -a", "VE2=new-under-allexport; set +a; VS1=\"$VS1 changed\""),
         // (finding W: an alias whose expansion starts with its own name, used in a function body,
         // must not be expanded once more each time the state is read back)
         ("alias-self-in-func", "alias a1='a1 pre'", "f1() { a1 x; }", "alias a2='echo other'"),
@@ -1300,7 +1302,13 @@ fn check_env_case(c: &EnvCase) -> Result<Option<String>, String> {
         lines.push(String::new());
         for k in 0..c.n_tests {
             let out = probes.join(format!("d{}.t{}", d, k));
-            let extra = if c.state_change_at == Some(k) { "; VS_USER=carried; vs_fn() { :; }; alias vs_al=true" } else { "" };
+            // (the last document's state-changing test case also unsets SCRUT_TEST: the next one
+            // must get a fresh one all the same - finding AC)
+            let extra = if c.state_change_at == Some(k) {
+                if d + 1 == c.n_docs && md { "; VS_USER=carried; vs_fn() { :; }; alias vs_al=true; unset SCRUT_TEST" } else { "; VS_USER=carried; vs_fn() { :; }; alias vs_al=true" }
+            } else {
+                ""
+            };
             let cmd = env_probe_cmd(&out, extra);
             if md {
                 lines.push(format!("## test {}", k));
